@@ -1,7 +1,7 @@
 """C02 — parsed components are the exact RFC 3986 sub-ranges of the input; host kind and address bytes."""
 import json
 import lib, parsesuite, c01
-from lib import enc, dec, show
+from lib import enc, enc_s, dec, show
 
 PID = "C02"
 
@@ -45,6 +45,10 @@ def run(chk):
                 nontrivial.add(core)
         for rq, o in zip(reqs, impl):
             if o.split(" live=")[0] != model_cache[rq].split(" live=")[0]: corr.append((rq, fl, o, model_cache[rq]))
+    # the public IPv4 parser (uriParseIpFourAddress) must classify every host text as the URI parser does
+    hosts = [f for f in narrow if model_cache.get("parse %s 3" % f, "").startswith("parse 0 ")]
+    hosts = [f for f in hosts if "2e" in f.split(".")][:6000]
+    lib.wrapper_check(chk, exes, [(f, enc_s("s:a")) for f in hosts], ("ip4address",), "uriParseIpFourAddress disagrees with the host classification of the URI parser (%s)")
     if corr and not chk.violations:
         rq, fl, o, m = corr[0]
         chk.violation("correspondence broken: Model/Parse.v and the implementation build different objects (%d cases)" % len(corr),
